@@ -119,6 +119,9 @@ impl BuildOptimiser {
     pub fn build(&self) -> MCOptimiser {
         let kt_ratio = match (self.kt_ratio, self.kt_finish) {
             (Some(ratio), _) => 1. - ratio,
+            // A temperature of zero stays at zero, there is no factor which takes it to the
+            // finishing temperature (the division below would give an infinite or NaN factor).
+            (None, Some(_)) if self.kt_start == 0. => 1.,
             (None, Some(finish)) => f64::powf(finish / self.kt_start, 1. / self.steps as f64),
             (None, None) => 0.1,
         };
